@@ -593,6 +593,12 @@ func (c *Client) PerformTransaction(msg *stun.Message, to net.Addr, ignoreResult
 	c.log.Tracef("Start %s transaction %s to %s", msg.Type, trKey, tr.To)
 	_, err := c.conn.WriteTo(tr.Raw, to)
 	if err != nil {
+		// Nobody will wait for this transaction: take it out of the table again,
+		// or a late response with its ID would block the read loop forever.
+		c.mutexTrMap.Lock()
+		c.trMap.Delete(trKey)
+		c.mutexTrMap.Unlock()
+
 		return client.TransactionResult{}, err
 	}
 
